@@ -40,6 +40,15 @@ CLAIMED = {
         note="Trees with cyclic struct references (hand-built only) are skipped; error rule is read from the message text.",
         technique="Lean 4 proof (decision logic = decidable specification, permutation invariance) + exhaustive small-scope correspondence",
         ref="DESIGN.md section 8, C09"),
+    "C19": dict(
+        text="Lean theorems: the model of can_send_<dev>_msgs_scheduled (static last_call_t / last_send_t[], uint32 wrap-around, unsigned "
+             "comparison with the period literal) refines, for every list of periods and every call history, the per-message reference automaton of "
+             "the statement (messages do not interfere); consecutive transmissions are at least P apart (mod 2^32, and in real time when gaps are "
+             "below 2^32); period -1 is never sent; a due message is sent. Tie: the generated <dev>_can.c is compiled with gcc from /repo's current "
+             "templates and run on generated histories (exhaustive short histories in the thorough tier) against the model and a reference automaton.",
+        note="Frame payload correctness beyond byte-aligned unsigned fields is C06's business; gcc and the C runtime are trusted.",
+        technique="Lean 4 proof (refinement to a reference automaton by induction over call histories) + compiled-code correspondence",
+        ref="DESIGN.md section 8, C19"),
     "C16": dict(
         text="Lean theorems: every strict byte prefix of a valid encoding makes pyDecode return an error (C16_truncation, from "
              "dec_prefix_none by induction over the type tree), a returned value accounts for bits that were present "
